@@ -135,7 +135,7 @@ func genC15(t *Tape) *c15Scenario {
 	// the TSA chain and its revocation sources
 	rs := &RevScenario{Prof: profC15Rev()}
 	rs.Config = t.Weighted(rs.Prof.ConfigW...)
-	rs.netMask = uint32(t.Choose(1 << 14))
+	rs.netMask = uint32(t.Choose(1 << 15))
 	rs.byzMask = uint32(t.Choose(1 << 8))
 	if rs.Config == 0 || rs.Config == 2 {
 		rs.netMask = 0
